@@ -576,3 +576,26 @@ def stmt_conditions(stmts, base=None):
                 go(st.finalbody, conds)
     go(stmts, base or [])
     return out
+
+
+# --------------------------------------------------------------------------- path expressions
+def norm_path(e, env=None):
+    """text of a filesystem path expression with locals read through, nested os.path.join flattened and placeholder-free
+    f-strings reduced to plain strings"""
+    import copy as _copy
+    e = inline(e, env) if env else _copy.deepcopy(e)
+
+    class T(ast.NodeTransformer):
+        def visit_JoinedStr(self, n):
+            self.generic_visit(n)
+            if all(isinstance(v, ast.Constant) for v in n.values):
+                return ast.Constant(value="".join(str(v.value) for v in n.values))
+            return n
+
+        def visit_Call(self, n):
+            self.generic_visit(n)
+            if U(n.func) == "os.path.join" and n.args and isinstance(n.args[0], ast.Call) and U(n.args[0].func) == "os.path.join" and not n.keywords:
+                return ast.Call(func=n.func, args=list(n.args[0].args) + list(n.args[1:]), keywords=[])
+            return n
+    e = T().visit(e)
+    return U(e).replace(" ", "")
